@@ -14,7 +14,9 @@ package main
 //	             when X's tag head already names its slot.  After the save the
 //	             treasure is read back into the same type and into a probe struct with the exact metadata tags.
 //	             reply: ok | bad | err-shape | bad-op
-//	val …        value round trips per Go kind: see c22val.go
+//	val …        value round trips per Go kind: see c22val.go;  mval / mupd / mpupd: the same on a sanctuary registered
+//	             with EncodingMsgPack (complex values and map bodies are msgpack- instead of gob-encoded)
+//	many V       the read loops (CatalogReadMany / ReadBatch / ReadManyStream, ProfileReadBatch): see c22many.go
 //
 // T is hex ("-" = empty tag).
 
@@ -142,7 +144,18 @@ func c22Gen(rng *rand.Rand, tier string, w *bufio.Writer) {
 		emitRt(c22RandTag(rng))
 	}
 	fmt.Fprintln(w, "case 3")
-	c22GenVals(rng, tier, func(l string) { fmt.Fprintln(w, l) })
+	var vals []string
+	c22GenVals(rng, tier, func(l string) { vals = append(vals, l); fmt.Fprintln(w, l) })
+	// the read loops (ReadMany / ReadBatch / ReadManyStream / ProfileReadBatch) on two records with different optional fields
+	fmt.Fprintln(w, "case 4")
+	for _, v := range []string{"value", "body", "profile"} {
+		fmt.Fprintln(w, "many "+v)
+	}
+	// the value matrices once more on a sanctuary registered with EncodingMsgPack
+	fmt.Fprintln(w, "case 5")
+	for _, l := range vals {
+		fmt.Fprintln(w, "m"+l)
+	}
 }
 
 // ---- unit probes -----------------------------------------------------------------------------
@@ -362,7 +375,7 @@ func c22Rt(sdk *miscSDK, idx int, tag, kind, extra string) (out string) {
 	for _, s := range sets {
 		s(m.Elem())
 	}
-	ctx, cancel := context.WithTimeout(context.Background(), 10*time.Second)
+	ctx, cancel := context.WithTimeout(context.Background(), HxScale(30*time.Second))
 	defer cancel()
 	swamp := sdkname.New().Sanctuary("c22").Realm("rt").Swamp("s" + strconv.Itoa(idx))
 	if _, err := sdk.H.CatalogSave(ctx, swamp, m.Interface()); err != nil {
@@ -370,12 +383,18 @@ func c22Rt(sdk *miscSDK, idx int, tag, kind, extra string) (out string) {
 			return "err-shape"
 		}
 		fmt.Fprintf(os.Stderr, "c22 rt %q: save: %v\n", tag, err)
+		if miscIsTimeout(err) {
+			return "timeout"
+		}
 		return "bad"
 	}
 	defer func() { _ = sdk.H.Destroy(context.Background(), swamp) }()
 	back := reflect.New(st)
 	if err := sdk.H.CatalogRead(ctx, swamp, key, back.Interface()); err != nil {
 		fmt.Fprintf(os.Stderr, "c22 rt %q: read: %v\n", tag, err)
+		if miscIsTimeout(err) {
+			return "timeout"
+		}
 		return "bad"
 	}
 	for i := range fields {
@@ -395,6 +414,9 @@ func c22Rt(sdk *miscSDK, idx int, tag, kind, extra string) (out string) {
 	var p c22Probe
 	if err := sdk.H.CatalogRead(ctx, swamp, key, &p); err != nil {
 		fmt.Fprintf(os.Stderr, "c22 rt %q: probe read: %v\n", tag, err)
+		if miscIsTimeout(err) {
+			return "timeout"
+		}
 		return "bad"
 	}
 	gotStr := map[string]string{"createdBy": p.CB, "updatedBy": p.UB}
@@ -461,7 +483,8 @@ func c22Run(in *bufio.Scanner, w *bufio.Writer) {
 			}
 			fmt.Fprintf(w, "shape=%s body=%s es=%s et=%s ds=%s dt=%s\n", sh, strings.Join(hx, ","),
 				c22EncProbe(t, false), c22EncProbe(t, true), c22DecProbe(t, false), c22DecProbe(t, true))
-		case (f[0] == "rt" && len(f) == 4) || (f[0] == "val" && len(f) == 5) || (f[0] == "upd" && len(f) == 6) || (f[0] == "shape" && len(f) == 2) || (f[0] == "pupd" && len(f) == 5):
+		case (f[0] == "rt" && len(f) == 4) || ((f[0] == "val" || f[0] == "mval") && len(f) == 5) || ((f[0] == "upd" || f[0] == "mupd") && len(f) == 6) ||
+			(f[0] == "shape" && len(f) == 2) || (f[0] == "many" && len(f) == 2) || ((f[0] == "pupd" || f[0] == "mpupd") && len(f) == 5):
 			t, ok := tagOf(f[1])
 			if f[0] != "rt" {
 				t, ok = "", true
@@ -474,10 +497,10 @@ func c22Run(in *bufio.Scanner, w *bufio.Writer) {
 				var err error
 				sdk, err = miscNewSDK(600, 0)
 				if err != nil {
-					fmt.Fprintln(w, "err rig")
+					fmt.Fprintln(w, "timeout rig")
 					continue
 				}
-				ctx, cancel := context.WithTimeout(context.Background(), 10*time.Second)
+				ctx, cancel := context.WithTimeout(context.Background(), HxScale(30*time.Second))
 				errs := sdk.H.RegisterSwamp(ctx, &hydraidego.RegisterSwampRequest{
 					SwampPattern:    sdkname.New().Sanctuary("c22").Realm("*").Swamp("*"),
 					CloseAfterIdle:  600 * time.Second,
@@ -487,15 +510,33 @@ func c22Run(in *bufio.Scanner, w *bufio.Writer) {
 				if len(errs) > 0 {
 					fmt.Fprintln(os.Stderr, "c22: register:", errs)
 				}
+				// the same matrices a second time on swamps whose complex values and map bodies are msgpack-encoded
+				ctx, cancel = context.WithTimeout(context.Background(), HxScale(30*time.Second))
+				errs = sdk.H.RegisterSwamp(ctx, &hydraidego.RegisterSwampRequest{
+					SwampPattern:   sdkname.New().Sanctuary("c22m").Realm("*").Swamp("*"),
+					CloseAfterIdle: 600 * time.Second,
+					FilesystemSettings: &hydraidego.SwampFilesystemSettings{WriteInterval: time.Second, MaxFileSize: 8192,
+						EncodingFormat: hydraidego.EncodingMsgPack},
+				})
+				cancel()
+				if len(errs) > 0 {
+					fmt.Fprintln(os.Stderr, "c22: register msgpack:", errs)
+				}
 			}
-			if f[0] == "shape" {
+			enc := ""
+			if f[0] == "mval" || f[0] == "mupd" || f[0] == "mpupd" {
+				enc, f[0] = "m", f[0][1:]
+			}
+			if f[0] == "many" {
+				fmt.Fprintln(w, c22Many(sdk, idx, f[1]))
+			} else if f[0] == "shape" {
 				fmt.Fprintln(w, c22Shape(sdk, idx, f[1]))
 			} else if f[0] == "pupd" {
-				fmt.Fprintln(w, c22Val(sdk, idx, "p", f[1], f[2], f[3], f[4]))
+				fmt.Fprintln(w, c22Val(sdk, idx, enc, "p", f[1], f[2], f[3], f[4]))
 			} else if f[0] == "val" {
-				fmt.Fprintln(w, c22Val(sdk, idx, f[1], f[2], f[3], f[4], ""))
+				fmt.Fprintln(w, c22Val(sdk, idx, enc, f[1], f[2], f[3], f[4], ""))
 			} else if f[0] == "upd" {
-				fmt.Fprintln(w, c22Val(sdk, idx, f[1], f[2], f[3], f[4], f[5]))
+				fmt.Fprintln(w, c22Val(sdk, idx, enc, f[1], f[2], f[3], f[4], f[5]))
 			} else {
 				fmt.Fprintln(w, c22Rt(sdk, idx, t, f[2], f[3]))
 			}
